@@ -306,6 +306,7 @@ type Case struct {
 	Items   []Item          `json:"items"`
 	Compete bool            `json:"compete"`
 	Mixed   bool            `json:"mixed"`
+	NotAmp  bool            `json:"notamp"`
 
 	Family string `json:"-"`
 	Name   string `json:"-"`
